@@ -60,8 +60,25 @@ func strategies(seed int64, nodes []string, k int) []schedSpec {
 	for i := 0; i < k; i++ {
 		out = append(out, schedSpec{fmt.Sprintf("random-%d", i), func(*sched.Net) sched.Strategy { return sched.Random }, false})
 	}
+	// a slow link: the message of type number ti from the first listed node to the second (or to everybody) arrives only when
+	// nothing else is deliverable; ti walks over the protocol's message types (at most maxTypes of them per call)
+	if len(nodes) >= 2 {
+		for ti := 0; ti < holdBackTypes; ti++ {
+			ti := ti
+			from, to := nodes[len(nodes)-1], nodes[0]
+			out = append(out, schedSpec{fmt.Sprintf("hold-back-type%d-%s-to-%s", ti, from, to), func(net *sched.Net) sched.Strategy {
+				if ti >= len(net.Types) {
+					return sched.FIFO
+				}
+				return sched.HoldBack(ti, from, to)
+			}, false})
+		}
+	}
 	return out
 }
+
+// holdBackTypes: how many message types get a hold-back schedule (the longest protocol has ten types)
+var holdBackTypes = 10
 
 // runOne executes one schedule. With dup, every delivered copy is delivered a second time later.
 func runOne(rc *runCtx, sp schedSpec, seed int64) {
